@@ -581,6 +581,31 @@ func addReflectStubs(m map[string]stubFn) {
 	m[V+"Len"] = func(in *Interp, fr *frame, args []Value) Value {
 		return BV(wordBits, uint64(in.rvLen(fr, rv(args[0]))))
 	}
+	m[V+"Bytes"] = func(in *Interp, fr *frame, args []Value) Value {
+		r := rv(args[0])
+		isByte := func(t types.Type) bool {
+			b, ok := t.Underlying().(*types.Basic)
+			return ok && b.Kind() == types.Uint8
+		}
+		switch u := r.t.Underlying().(type) {
+		case *types.Slice:
+			if !isByte(u.Elem()) {
+				rpanic(fr, "reflect.Value.Bytes of non-byte slice")
+			}
+			return in.rvGet(fr, r)
+		case *types.Array:
+			if !isByte(u.Elem()) {
+				rpanic(fr, "reflect.Value.Bytes of non-byte array")
+			}
+			if r.ptr == nil || r.flag&rvAddr == 0 {
+				rpanic(fr, "reflect.Value.Bytes of unaddressable byte array")
+			}
+			a := in.rvGet(fr, r).(*ArrObj)
+			return Slice{arr: a, len: len(a.elems), cap: len(a.elems)}
+		}
+		rpanic(fr, "reflect: call of reflect.Value.Bytes on "+kindNames[kindOf(r.t)]+" Value")
+		return nil
+	}
 	m[V+"Index"] = func(in *Interp, fr *frame, args []Value) Value {
 		r := rv(args[0])
 		i := argInt(args[1])
